@@ -2,8 +2,10 @@ package compiler
 
 import (
 	"fmt"
+	"sort"
 
 	"github.com/grafana/cog/internal/ast"
+	"github.com/grafana/cog/internal/tools"
 )
 
 var _ Pass = (*FieldsSetDefault)(nil)
@@ -26,8 +28,21 @@ func (pass *FieldsSetDefault) processObject(_ *Visitor, _ *ast.Schema, object as
 		return object, nil
 	}
 
+	// sorted: when several keys match the same field, the winner must not depend on map iteration order
+	fieldRefs := tools.Keys(pass.DefaultValues)
+	sort.Slice(fieldRefs, func(i, j int) bool {
+		if fieldRefs[i].Package != fieldRefs[j].Package {
+			return fieldRefs[i].Package < fieldRefs[j].Package
+		}
+		if fieldRefs[i].Object != fieldRefs[j].Object {
+			return fieldRefs[i].Object < fieldRefs[j].Object
+		}
+		return fieldRefs[i].Field < fieldRefs[j].Field
+	})
+
 	for i, field := range object.Type.AsStruct().Fields {
-		for fieldRef, value := range pass.DefaultValues {
+		for _, fieldRef := range fieldRefs {
+			value := pass.DefaultValues[fieldRef]
 			if !fieldRef.Matches(object, field) {
 				continue
 			}
